@@ -57,6 +57,9 @@ theorem idsDistinct_iff (l : List Member) : IdsDistinct l ↔ DistinctIds l := b
   unfold IdsDistinct DistinctIds List.Nodup
   rw [List.pairwise_map]
 
+theorem wf_split {ms : List Member} (h : WellFormed ms) : IdsDistinct ms ∧ TopicsOnce ms :=
+  ⟨(idsDistinct_iff ms).mpr h.1, h.2⟩
+
 theorem IdsDistinct.perm {l₁ l₂ : List Member} (h : l₁.Perm l₂) (hd : IdsDistinct l₁) : IdsDistinct l₂ :=
   (h.pairwise_iff (fun {_ _} hxy => fun e => hxy e.symm)).mp hd
 
